@@ -549,7 +549,8 @@ impl FallbackHelper for i128 {
 
     #[inline]
     fn shift_lo_up(self) -> i128 {
-        debug_assert!(self >> 64 == 0);
+        // the signed carry can be -1
+        debug_assert!(self >> 64 == 0 || self >> 64 == -1);
         self << 64
     }
 
